@@ -17,6 +17,7 @@ func fromField(v ssa.Value, f *types.Var) bool {
 }
 
 func checkC07(p *load.Program, r *kit.Report) {
+	importRules(p, r, "C01", "after a restart the announcement of a reorganisation walks the new best branch through its parents: a loaded branch must be attached to the first branch that knows its previous hash, or the headers announced between the fork point and the tip are a sibling's", 1, nil, "LINK-FIRST")
 	r.Rule("SENTINEL-EXACT", "sendBranchUpdate separates Find's `not found` answer -1 from the valid fork height 0 (a fork directly above the first header)", 1)
 	if sbu := p.Func(H, "Repository.sendBranchUpdate"); sbu != nil {
 		sentinelExactIn(p, r, "SENTINEL-EXACT", []*ssa.Function{sbu})
